@@ -369,6 +369,51 @@ let () =
         Printf.sprintf "drawop=first-only paths=%d" n
     | _ -> failwith "PIXOP")
 
+
+(* ---- SVG path data front ends ---- *)
+let str_of_hex h = bytes_of_hex h   (* a string is its list of bytes *)
+
+let transform_of_tok (t : string) : z list option =
+  if t = "-" then None
+  else
+    let one s =
+      match String.split_on_char ':' s with
+      | ["T"; a] -> (match String.split_on_char ',' a with [x; y] -> translate (z_of_hex x) (z_of_hex y) | _ -> failwith "T")
+      | ["S"; a] -> (match String.split_on_char ',' a with [x; y] -> scale2 (z_of_hex x) (z_of_hex y) | _ -> failwith "S")
+      | ["M"; a] -> List.map z_of_hex (String.split_on_char ',' a)
+      | _ -> failwith ("bad transform " ^ s) in
+    Some (concat (List.map one (String.split_on_char ';' t)))
+
+let () =
+  reg "SPD" (fun a ->
+    match a with
+    | [adj; tr; hx] ->
+        let (cs, o) = set_path_data (transform_of_tok tr) (str_of_hex hx) (z_of_dec adj) in
+        let os = match o with
+          | PDOk -> "OK" | PDErrVerb v -> "ERRVERB" ^ dec_of_z v | PDErrNumber -> "ERRNUM" | PDPanic -> "PANIC" in
+        os ^ " | " ^ str_of_calls cs
+    | _ -> failwith "SPD");
+  (* MDP size ox oy out (P opacity|- hexd|- circles|-)* *)
+  reg "MDP" (fun a ->
+    match a with
+    | size :: ox :: oy :: out :: rest ->
+        let rec go adjs toks acc =
+          match toks with
+          | "P" :: op :: d :: cs :: r ->
+              let opacity = if op = "-" then None else Some (z_of_hex op) in
+              let dstr = if d = "-" then [] else str_of_hex d in
+              let circles = if cs = "-" then [] else
+                List.map (fun c -> match String.split_on_char ',' c with
+                  | [x; y; r] -> { ci_cx = z_of_hex x; ci_cy = z_of_hex y; ci_r = z_of_hex r } | _ -> failwith "circle")
+                  (String.split_on_char ';' cs) in
+              let ((calls, adjs'), ok) = md_parse_path adjs opacity dstr (z_of_hex size) (z_of_hex ox) (z_of_hex oy) (z_of_hex out) circles in
+              go adjs' r (acc @ [(if ok then "ok" else "ERR") ^ " " ^ str_of_calls calls])
+          | [] -> (adjs, acc)
+          | _ -> failwith "MDP" in
+        let (adjs, outs) = go [] rest [] in
+        String.concat " ;; " outs ^ " | adjs=" ^ String.concat "," (List.map (fun (k, v) -> f32s k ^ ":" ^ dec_of_z v) adjs)
+    | _ -> failwith "MDP")
+
 let () =
   let out = Buffer.create (1 lsl 16) in
   (try
